@@ -98,6 +98,7 @@ class C18(Check):
         "find_overlaps; transitions: discard_start, discard_end, trim_large_overhangs(1|2|4), trim_fragment(first|last x keep flags); "
         "state = (rows,start,end) re-created by replaying its op history on a fresh lookup; search runs to fixpoint per initial state. "
         "non-trivial = state reached by at least one accepted operation that changed it"
+        " The source scaffold must be unchanged after every operation; a lookup that fails or changes after edits is a violation."
     )
     assumptions = ["row lengths from {1,3,5}/{1,2}; <= K rows; all OverlapResult state is (rows,start,end,bait)"]
     shard_timeout = {"quick": 300, "thorough": 3600}
